@@ -350,7 +350,9 @@ def features(case):
 
 
 def _witness(name, case, opname, variables, world, mode):
-    return {"schema": name, "doc": case["doc"], "devs": case.get("devs", []), "opname": opname, "variables": variables, "world": world, "mode": mode}
+    # "vars" (all choices) lets the replay walk through the earlier assignments on the same parsed
+    # document first, exactly as the exploration does: a stale per-document cache needs that history
+    return {"schema": name, "doc": case["doc"], "devs": case.get("devs", []), "vars": case.get("vars", {}), "opname": opname, "variables": variables, "world": world, "mode": mode}
 
 
 def run_document(name, case, st, bounds, opnames=(None,)):
@@ -448,6 +450,12 @@ def replay_document(w):
         ref = R.execute(sm, doc, locs, {}, w["opname"], w["variables"], valuekey="field", data_depth=DATA_DEPTH)
     else:
         ref = R.execute(sm, doc, locs, w["world"], w["opname"], w["variables"])
+    # earlier assignments of the same document on the same parsed AST (fault-free world), in the
+    # order of the exploration
+    for variables in O.assignments(w.get("vars") or {}):
+        if variables == w["variables"]:
+            break
+        _lib_run(mode, name, text, ast, w["opname"], variables, {})
     lib = _lib_run(mode, name, text, ast, w["opname"], w["variables"], w["world"])
     got = compare(ref, lib, mode, feat)
     if w["world"] and lib[0] == "ok":
